@@ -570,7 +570,7 @@ func (eng *Engine) newExec(fi *FuncInfo, c *Contract, prop string) *Exec {
 	ex := &Exec{eng: eng, fn: fi, contract: c, prop: prop, init: map[types.Object]*Val{}, lets: map[string]*Val{}, hiddenVars: map[string]types.Object{},
 		notes: map[string]bool{}, assumptions: map[string]bool{}, dropped: map[string]int{}, unknown: map[string]int{}, modelUsed: map[string]int{},
 		usedContracts: map[string]int{}, assumedUsed: map[string]int{}, callN: map[string]int{}, callSites: map[string]map[token.Pos]int{}, nameCount: map[string]int{}, guardN: map[string]int{},
-		safetyKinds: map[string]bool{"index": true, "slice-bounds": true, "div-by-zero": true, "make-size": true, "make-cap": true, "make-chan-size": true, "type-assert": true, "panic": true, "ticker-interval-positive": true}}
+		safetyKinds: map[string]bool{"index": true, "slice-bounds": true, "div-by-zero": true, "make-size": true, "make-cap": true, "make-chan-size": true, "type-assert": true, "panic": true, "ticker-interval-positive": true, "close-of-closed-channel": true}}
 	if fi != nil && fi.Pkg != nil {
 		ex.info = fi.Pkg.TypesInfo
 	}
